@@ -1,6 +1,6 @@
 (* C37 — proofs. *)
 From Coq Require Import NArith List Bool Lia PeanoNat.
-From Dolt Require Import Base.Str Gen.C37Consts C37.Model C37.Spec.
+From Dolt Require Import Base.Str Gen.C37Consts C37.Model C37.Spec C37.Corr.
 Import ListNotations.
 Local Open Scope N_scope.
 
@@ -173,7 +173,8 @@ Section TagProofs.
     assert (Hsim : sim {| head := h1; work := w1; other := o1 |} {| head := h1; work := w1; other := o2 |}).
     { repeat split. exact Ho. }
     destruct d as [t news | t c k pos | t c | t | t a b | t c k | ]; unfold step; cbn [head work other].
-    - destruct (lookup t w1) as [cs|]; [exact Hsim|].
+    - destruct (negb (names_distinct (map fst news))); [exact Hsim|].
+      destruct (lookup t w1) as [cs|]; [exact Hsim|].
       rewrite (gen_tags_same_set fuel _ (root_tags h1 ++ root_tags w1 ++ o1) (root_tags h1 ++ root_tags w1 ++ o2) t news).
       2:{ apply same_set_app_l. apply same_set_app_l. exact Ho. }
       destruct (gen_tags rand_seq fuel _ (root_tags h1 ++ root_tags w1 ++ o2) t news) as [tags|]; [|exact I].
@@ -248,13 +249,14 @@ Section TagProofs.
      in the working root.  Missing: the book-keeping that carries NoDup through set_table for whole runs, and — essentially —
      the case of a table re-created while HEAD still has it, where the statement is false. *)
   Theorem tags_distinct_partial : forall fuel s t news s',
+    names_distinct (map fst news) = true ->
     lookup t (work s) = None -> lookup t (head s) = None ->
     step rand_seq fuel s (Create t news) = Some s' ->
     exists tags, work s' = set_table t (mk_cols news tags) (work s)
                  /\ NoDup tags
                  /\ forall x, In x tags -> ~ In x (root_tags (head s) ++ root_tags (work s) ++ other s).
   Proof.
-    intros fuel s t news s' Hw Hh H. unfold step in H. rewrite Hw, Hh in H.
+    intros fuel s t news s' Hnd Hw Hh H. unfold step in H. rewrite Hnd, Hw, Hh in H. cbn [negb] in H.
     destruct (gen_tags rand_seq fuel [] _ t news) as [tags|] eqn:Hg; [|discriminate].
     injection H as <-. exists tags. cbn [work]. split; [reflexivity|].
     unfold gen_tags in Hg. cbn [map] in Hg. apply gen_loop_fresh in Hg. exact Hg.
@@ -326,41 +328,69 @@ Ltac split_andb H :=
          | (_ && _) = true => let H2 := fresh "E" in apply andb_prop in H; destruct H as [H H2]
          end.
 
-Lemma scol_eqb_eq a b : scol_eqb a b = true -> a = b.
-Proof.
-  destruct a as [a1 a2 a3 a4 a5 a6 a7 a8 a9 a10 a11 a12], b as [b1 b2 b3 b4 b5 b6 b7 b8 b9 b10 b11 b12]. unfold scol_eqb.
-  cbn [sc_name sc_tag sc_ty sc_nullable sc_pk sc_autoinc sc_default sc_generated sc_onupdate sc_virtual sc_comment sc_hidden].
-  intros H. split_andb H.
+Ltac eqb_to_eq :=
   repeat match goal with
          | H : beq_bytes _ _ = true |- _ => apply beq_bytes_eq in H
+         | H : list_eqb N.eqb _ _ = true |- _ => apply (list_eqb_eq N.eqb Neqb_eq) in H
+         | H : list_eqb beq_bytes _ _ = true |- _ => apply (list_eqb_eq beq_bytes beq_bytes_eq) in H
          | H : (_ =? _) = true |- _ => apply Neqb_eq in H
          | H : Bool.eqb _ _ = true |- _ => apply Bool.eqb_prop in H
          end.
-  subst. reflexivity.
+
+Lemma scol_eqb_eq a b : scol_eqb a b = true -> a = b.
+Proof.
+  destruct a as [a1 a2 a3 a4 a5 a6 a7 a8 a9 a10 a11 a12 a13], b as [b1 b2 b3 b4 b5 b6 b7 b8 b9 b10 b11 b12 b13]. unfold scol_eqb.
+  cbn [sc_name sc_tag sc_ty sc_nullable sc_pk sc_autoinc sc_default sc_generated sc_onupdate sc_virtual sc_comment sc_hidden sc_syshidden].
+  intros H. split_andb H. eqb_to_eq. subst. reflexivity.
+Qed.
+
+Lemma ftinfo_eqb_eq a b : ftinfo_eqb a b = true -> a = b.
+Proof.
+  destruct a as [a1 a2 a3 a4 a5 a6 a7 a8], b as [b1 b2 b3 b4 b5 b6 b7 b8]. unfold ftinfo_eqb.
+  cbn [ft_config ft_pos ft_doccount ft_global ft_rowcount ft_keytype ft_keyname ft_keypos].
+  intros H. split_andb H. eqb_to_eq. subst. reflexivity.
 Qed.
 
 Lemma sindex_eqb_eq a b : sindex_eqb a b = true -> a = b.
 Proof.
-  destruct a as [a1 a2 a3 a4 a5 a6], b as [b1 b2 b3 b4 b5 b6]. unfold sindex_eqb. cbn [ix_name ix_tags ix_unique ix_comment ix_prefix ix_flags].
+  destruct a as [a1 a2 a3 a4 a5 a6 a7 a8 a9 a10 a11 a12], b as [b1 b2 b3 b4 b5 b6 b7 b8 b9 b10 b11 b12]. unfold sindex_eqb.
+  cbn [ix_name ix_tags ix_unique ix_comment ix_prefix ix_userdef ix_spatial ix_fulltext ix_vector ix_predicate ix_ft ix_vecdist].
   intros H. split_andb H.
-  repeat match goal with
-         | H : beq_bytes _ _ = true |- _ => apply beq_bytes_eq in H
-         | H : list_eqb N.eqb _ _ = true |- _ => apply (list_eqb_eq N.eqb Neqb_eq) in H
-         | H : (_ =? _) = true |- _ => apply Neqb_eq in H
-         | H : Bool.eqb _ _ = true |- _ => apply Bool.eqb_prop in H
-         end.
-  subst. reflexivity.
+  match goal with E : ftinfo_eqb _ _ = true |- _ => apply ftinfo_eqb_eq in E end.
+  eqb_to_eq. subst. reflexivity.
 Qed.
 
 Lemma scheck_eqb_eq a b : scheck_eqb a b = true -> a = b.
 Proof.
-  destruct a as [a1 a2 a3], b as [b1 b2 b3]. unfold scheck_eqb. cbn [ck_name ck_expr ck_enforced].
-  intros H. split_andb H.
-  repeat match goal with
-         | H : beq_bytes _ _ = true |- _ => apply beq_bytes_eq in H
-         | H : Bool.eqb _ _ = true |- _ => apply Bool.eqb_prop in H
-         end.
-  subst. reflexivity.
+  destruct a as [a1 a2 a3 a4], b as [b1 b2 b3 b4]. unfold scheck_eqb. cbn [ck_name ck_expr ck_enforced ck_notvalid].
+  intros H. split_andb H. eqb_to_eq. subst. reflexivity.
+Qed.
+
+Lemma sfk_eqb_eq a b : sfk_eqb a b = true -> a = b.
+Proof.
+  destruct a as [a1 a2 a3 a4 a5 a6 a7 a8 a9 a10 a11 a12 a13], b as [b1 b2 b3 b4 b5 b6 b7 b8 b9 b10 b11 b12 b13]. unfold sfk_eqb.
+  cbn [fk_name fk_table fk_index fk_cols fk_reftable fk_refindex fk_refcols fk_onupdate fk_ondelete fk_unres fk_unresref fk_notvalid fk_match].
+  intros H. split_andb H. eqb_to_eq. subst. reflexivity.
+Qed.
+
+Lemma scol_eqb_refl x : scol_eqb x x = true.
+Proof. unfold scol_eqb. rewrite !beq_bytes_refl, !N.eqb_refl, !Bool.eqb_reflx. reflexivity. Qed.
+Lemma ftinfo_eqb_refl x : ftinfo_eqb x x = true.
+Proof. unfold ftinfo_eqb. rewrite !beq_bytes_refl, !N.eqb_refl, !(list_eqb_refl N.eqb N.eqb_refl). reflexivity. Qed.
+Lemma sindex_eqb_refl x : sindex_eqb x x = true.
+Proof. unfold sindex_eqb. rewrite !beq_bytes_refl, !N.eqb_refl, !Bool.eqb_reflx, !(list_eqb_refl N.eqb N.eqb_refl), ftinfo_eqb_refl. reflexivity. Qed.
+Lemma scheck_eqb_refl x : scheck_eqb x x = true.
+Proof. unfold scheck_eqb. rewrite !beq_bytes_refl, !Bool.eqb_reflx. reflexivity. Qed.
+Lemma sfk_eqb_refl x : sfk_eqb x x = true.
+Proof.
+  unfold sfk_eqb. rewrite !beq_bytes_refl, !N.eqb_refl, !Bool.eqb_reflx, !(list_eqb_refl N.eqb N.eqb_refl), !(list_eqb_refl beq_bytes beq_bytes_refl).
+  reflexivity.
+Qed.
+Lemma sschema_eqb_refl x : sschema_eqb x x = true.
+Proof.
+  unfold sschema_eqb.
+  rewrite (list_eqb_refl _ scol_eqb_refl), (list_eqb_refl _ sindex_eqb_refl), (list_eqb_refl _ scheck_eqb_refl), (list_eqb_refl Nat.eqb Nat.eqb_refl),
+    !N.eqb_refl, beq_bytes_refl. reflexivity.
 Qed.
 
 (* the oracle's comparison is sound and complete: true exactly when every modelled field is preserved *)
@@ -373,20 +403,13 @@ Proof.
     match goal with E : list_eqb Nat.eqb _ _ = true |- _ => apply (list_eqb_eq Nat.eqb (fun x y => proj1 (Nat.eqb_eq x y))) in E end.
     match goal with E : list_eqb sindex_eqb _ _ = true |- _ => apply (list_eqb_eq sindex_eqb sindex_eqb_eq) in E end.
     match goal with E : list_eqb scheck_eqb _ _ = true |- _ => apply (list_eqb_eq scheck_eqb scheck_eqb_eq) in E end.
-    repeat match goal with
-           | H : beq_bytes _ _ = true |- _ => apply beq_bytes_eq in H
-           | H : (_ =? _) = true |- _ => apply Neqb_eq in H
-           end.
-    subst. reflexivity.
-  - intros <-. unfold sschema_eqb.
-    assert (Hc : forall x, scol_eqb x x = true).
-    { intros x. unfold scol_eqb. rewrite !beq_bytes_refl, !N.eqb_refl, !Bool.eqb_reflx. reflexivity. }
-    assert (Hi : forall x, sindex_eqb x x = true).
-    { intros x. unfold sindex_eqb. rewrite !beq_bytes_refl, !N.eqb_refl, !Bool.eqb_reflx, !(list_eqb_refl N.eqb N.eqb_refl). reflexivity. }
-    assert (Hk : forall x, scheck_eqb x x = true).
-    { intros x. unfold scheck_eqb. rewrite !beq_bytes_refl, !Bool.eqb_reflx. reflexivity. }
-    rewrite (list_eqb_refl _ Hc), (list_eqb_refl _ Hi), (list_eqb_refl _ Hk), (list_eqb_refl Nat.eqb Nat.eqb_refl),
-      !N.eqb_refl, beq_bytes_refl. reflexivity.
+    eqb_to_eq. subst. reflexivity.
+  - intros <-. apply sschema_eqb_refl.
+Qed.
+
+Theorem sfk_list_eqb_eq : forall a b, list_eqb sfk_eqb a b = true <-> a = b.
+Proof.
+  intros a b. split; [apply (list_eqb_eq sfk_eqb sfk_eqb_eq) | intros <-; apply (list_eqb_refl sfk_eqb sfk_eqb_refl)].
 Qed.
 
 (* ------------------------------------------------------------------ *)
@@ -398,11 +421,11 @@ Section RoundTrip.
 
   Lemma de_ser_col c : wf_col type_string parse_type c -> de_col parse_type (ser_col type_string c) = Some c.
   Proof.
-    intros [Hdg [Hpk Hty]]. destruct c as [n tg ty nu pk ai df gn ou vi cm hd].
+    intros [Hdg [Hpk Hty]]. destruct c as [n tg ty nu pk ai df gn ou vi cm hd sh].
     cbn [sc_default sc_generated sc_pk sc_nullable sc_ty] in Hdg, Hpk, Hty.
     unfold de_col, ser_col.
-    cbn [f_sqltype f_name f_tag f_nullable f_pk f_autoinc f_generated f_default f_onupdate f_virtual f_comment f_hidden
-         sc_name sc_tag sc_ty sc_nullable sc_pk sc_autoinc sc_default sc_generated sc_onupdate sc_virtual sc_comment sc_hidden].
+    cbn [f_sqltype f_name f_tag f_nullable f_pk f_autoinc f_generated f_default f_onupdate f_virtual f_comment f_hidden f_syshidden
+         sc_name sc_tag sc_ty sc_nullable sc_pk sc_autoinc sc_default sc_generated sc_onupdate sc_virtual sc_comment sc_hidden sc_syshidden].
     rewrite Hty.
     assert (Hn : nu && negb pk = nu).
     { destruct pk; [rewrite (Hpk eq_refl); reflexivity | apply andb_true_r]. }
@@ -460,32 +483,45 @@ Section RoundTrip.
   Qed.
 
   Lemma de_ser_index s ix :
-    (forall t, In t (ix_tags ix) -> In t (map sc_tag (s_cols s))) ->
-    de_index (serialize type_string s) (ser_index (map sc_tag (s_cols s)) ix) = ix.
+    (forall t, In t (ix_tags ix) -> In t (map sc_tag (s_cols s))) -> wf_index ix ->
+    de_index (serialize type_string s) (ser_index (map sc_tag (s_cols s)) ix) = Some ix.
   Proof.
-    intros H. destruct ix as [n tags u cm pf fl]. unfold de_index, ser_index.
-    cbn [fi_name fi_cols fi_unique fi_comment fi_prefix fi_flags ix_name ix_tags ix_unique ix_comment ix_prefix ix_flags] in *.
-    f_equal. rewrite map_map. unfold serialize. cbn [fs_cols].
-    induction tags as [|t tags IH]; cbn [map]; [reflexivity|].
-    rewrite pos_roundtrip by (apply H; left; reflexivity).
-    f_equal. apply IH. intros x Hx. apply H. right. exact Hx.
+    intros H [Hft [Hv1 Hv0]]. destruct ix as [n tags u cm pf ud sp ft vc pr fti vd]. unfold de_index, ser_index.
+    cbn [fi_name fi_cols fi_unique fi_comment fi_prefix fi_system fi_spatial fi_fulltext fi_ft fi_vector fi_vec fi_predicate
+         ix_name ix_tags ix_unique ix_comment ix_prefix ix_userdef ix_spatial ix_fulltext ix_vector ix_predicate ix_ft ix_vecdist] in *.
+    assert (Htags : map (fun p => f_tag (nth p (fs_cols (serialize type_string s)) dummy_fcol)) (map (tag_to_idx (map sc_tag (s_cols s))) tags) = tags).
+    { rewrite map_map. unfold serialize. cbn [fs_cols].
+      induction tags as [|t tags IH]; cbn [map]; [reflexivity|].
+      rewrite pos_roundtrip by (apply H; left; reflexivity).
+      f_equal. apply IH. intros x Hx. apply H. right. exact Hx. }
+    rewrite Htags, negb_involutive.
+    assert (Hpr : match (if is_nil pr then None else Some pr) with Some p => p | None => [] end = pr) by (destruct pr; reflexivity).
+    rewrite Hpr.
+    destruct ft, vc.
+    - rewrite (Hv1 eq_refl). reflexivity.
+    - rewrite (Hv0 eq_refl). reflexivity.
+    - rewrite (Hv1 eq_refl), (Hft eq_refl). reflexivity.
+    - rewrite (Hv0 eq_refl), (Hft eq_refl). reflexivity.
   Qed.
 
   (* Storing and reloading preserves every modelled field: for every well-formed schema, whatever the columns, types,
-     defaults, generated / on-update expressions, comments, key order, indexes, checks, collation. *)
+     defaults, generated / on-update expressions, comments, key order, indexes (with their fulltext / vector / spatial
+     properties, comments, prefix lengths, predicates, user-defined flag), checks, collation. *)
   Theorem schema_roundtrip : forall s,
     wf_schema type_string parse_type s ->
     deserialize parse_type (serialize type_string s) = Some s.
   Proof.
-    intros s [Hcols [Hkl [Hnk Hix]]].
+    intros s [Hcols [Hkl [Hnk [Hix Hwi]]]].
     unfold deserialize.
-    assert (Hidx : map (de_index (serialize type_string s)) (fs_indexes (serialize type_string s)) = s_indexes s).
-    { unfold serialize at 2. cbn [fs_indexes]. rewrite map_map.
+    assert (Hidx : map_opt (de_index (serialize type_string s)) (fs_indexes (serialize type_string s)) = Some (s_indexes s)).
+    { unfold serialize at 2. cbn [fs_indexes].
       assert (Hall : forall l, (forall ix, In ix l -> In ix (s_indexes s)) ->
-                     map (fun x => de_index (serialize type_string s) (ser_index (map sc_tag (s_cols s)) x)) l = l).
-      { induction l as [|ix l IH]; intros Hl; cbn [map]; [reflexivity|].
-        rewrite de_ser_index by (intros t Ht; apply (Hix ix t); [apply Hl; left; reflexivity | exact Ht]).
-        f_equal. apply IH. intros x Hx. apply Hl. right. exact Hx. }
+                     map_opt (de_index (serialize type_string s)) (map (ser_index (map sc_tag (s_cols s))) l) = Some l).
+      { induction l as [|ix l IH]; intros Hl; cbn [map map_opt]; [reflexivity|].
+        rewrite de_ser_index.
+        - rewrite IH; [reflexivity|]. intros x Hx. apply Hl. right. exact Hx.
+        - intros t Ht. apply (Hix ix t); [apply Hl; left; reflexivity | exact Ht].
+        - apply Hwi. apply Hl. left. reflexivity. }
       apply Hall. intros ix H. exact H. }
     rewrite Hidx. clear Hidx.
     destruct (keyless s) eqn:Ek.
@@ -513,11 +549,16 @@ End RoundTrip.
 (* the hypotheses are satisfiable: a keyed and a keyless schema with an index, a default and a generated column *)
 Definition ex_col (n : bytes) (tag : N) (pk : bool) (df gn : bytes) : scol :=
   {| sc_name := n; sc_tag := tag; sc_ty := [105]; sc_nullable := negb pk; sc_pk := pk; sc_autoinc := false;
-     sc_default := df; sc_generated := gn; sc_onupdate := []; sc_virtual := false; sc_comment := [104]; sc_hidden := false |}.
+     sc_default := df; sc_generated := gn; sc_onupdate := []; sc_virtual := false; sc_comment := [104]; sc_hidden := false; sc_syshidden := false |}.
+Definition ex_index (ft vc : bool) : sindex :=
+  {| ix_name := [105]; ix_tags := [3; 7]; ix_unique := true; ix_comment := [99]; ix_prefix := [4]; ix_userdef := negb ft; ix_spatial := false;
+     ix_fulltext := ft; ix_vector := vc; ix_predicate := [];
+     ix_ft := if ft then {| ft_config := [1]; ft_pos := [2]; ft_doccount := [3]; ft_global := [4]; ft_rowcount := [5]; ft_keytype := 1; ft_keyname := [6]; ft_keypos := [0] |} else ft_zero;
+     ix_vecdist := if vc then 1 else 0 |}.
 Definition ex_schema (pk : bool) : sschema :=
   {| s_cols := [ex_col [97] 7 pk [] []; ex_col [98] 9 false [49] []; ex_col [99] 3 false [] [97; 43; 49]];
-     s_pk_ord := if pk then [0%nat] else []; s_indexes := [{| ix_name := [105]; ix_tags := [3; 7]; ix_unique := true; ix_comment := []; ix_prefix := []; ix_flags := 1 |}];
-     s_checks := [{| ck_name := [107]; ck_expr := [97]; ck_enforced := true |}]; s_collation := 46; s_comment := [116]; s_rowsize := 2048 |}.
+     s_pk_ord := if pk then [0%nat] else []; s_indexes := [ex_index false false; ex_index true false; ex_index false true];
+     s_checks := [{| ck_name := [107]; ck_expr := [97]; ck_enforced := true; ck_notvalid := false |}]; s_collation := 46; s_comment := [116]; s_rowsize := 2048 |}.
 
 Example roundtrip_nonvacuous :
   deserialize (fun x => Some x) (serialize (fun x => x) (ex_schema true)) = Some (ex_schema true)
@@ -530,3 +571,621 @@ Example roundtrip_needs_wf :
     {| s_cols := [ex_col [97] 7 false [49] [50]]; s_pk_ord := []; s_indexes := []; s_checks := []; s_collation := 0; s_comment := []; s_rowsize := 0 |})
   <> Some {| s_cols := [ex_col [97] 7 false [49] [50]]; s_pk_ord := []; s_indexes := []; s_checks := []; s_collation := 0; s_comment := []; s_rowsize := 0 |}.
 Proof. vm_compute. intro H. discriminate H. Qed.
+
+(* a vector index whose distance type is not L2Squared is written with DistanceTypeNull and refused on read: why wf_index asks for L2Squared *)
+Example roundtrip_vector_needs_l2 :
+  deserialize (fun x => Some x) (serialize (fun x => x)
+    {| s_cols := [ex_col [97] 7 true [] []]; s_pk_ord := [0%nat];
+       s_indexes := [{| ix_name := [105]; ix_tags := [7]; ix_unique := false; ix_comment := []; ix_prefix := []; ix_userdef := true; ix_spatial := false;
+                        ix_fulltext := false; ix_vector := true; ix_predicate := []; ix_ft := ft_zero; ix_vecdist := 2 |}];
+       s_checks := []; s_collation := 0; s_comment := []; s_rowsize := 0 |}) = None.
+Proof. vm_compute. reflexivity. Qed.
+
+(* ------------------------------------------------------------------ *)
+(* foreign key collection round trip                                   *)
+(* ------------------------------------------------------------------ *)
+Section FKRoundTrip.
+  Variable encode_name : bytes -> bytes.
+  Variable decode_name : bytes -> option bytes.
+
+  Theorem fk_roundtrip : forall l,
+    (forall k, In k l -> decode_name (encode_name (fk_table k)) = Some (fk_table k)
+                         /\ decode_name (encode_name (fk_reftable k)) = Some (fk_reftable k)) ->
+    fk_deserialize decode_name (fk_serialize encode_name l) = Some l.
+  Proof.
+    unfold fk_deserialize, fk_serialize.
+    induction l as [|k l IH]; intros H; cbn [map map_opt]; [reflexivity|].
+    destruct (H k (or_introl eq_refl)) as [Ht Hr].
+    assert (Hk : de_fk decode_name (ser_fk encode_name k) = Some k).
+    { destruct k as [k1 k2 k3 k4 k5 k6 k7 k8 k9 k10 k11 k12 k13]. unfold de_fk, ser_fk. cbn [fk_name fk_table fk_index fk_cols fk_reftable fk_refindex fk_refcols fk_onupdate fk_ondelete fk_unres fk_unresref fk_notvalid fk_match] in *.
+      rewrite Ht, Hr. reflexivity. }
+    rewrite Hk, IH; [reflexivity|]. intros x Hx. apply H. right. exact Hx.
+  Qed.
+End FKRoundTrip.
+
+(* ------------------------------------------------------------------ *)
+(* run-level distinctness of tags                                      *)
+(* ------------------------------------------------------------------ *)
+From Coq Require Import Permutation.
+
+Lemma nodup_app_iff {A} (l k : list A) : NoDup (l ++ k) <-> NoDup l /\ NoDup k /\ (forall x, In x l -> ~ In x k).
+Proof.
+  induction l as [|a l IH]; cbn [app].
+  - split.
+    + intros H. repeat split; [constructor | exact H | intros x []].
+    + intros [_ [H _]]. exact H.
+  - split.
+    + intros H. inversion H as [|? ? Hn Hd]; subst. apply IH in Hd. destruct Hd as [Hl [Hk Hx]].
+      repeat split.
+      * constructor; [intro Hi; apply Hn; apply in_or_app; left; exact Hi | exact Hl].
+      * exact Hk.
+      * intros x [<-|Hi]; [intro Hk'; apply Hn; apply in_or_app; right; exact Hk' | apply Hx; exact Hi].
+    + intros [Hl [Hk Hx]]. inversion Hl as [|? ? Hn Hd]; subst. constructor.
+      * intro Hi. apply in_app_or in Hi. destruct Hi as [Hi|Hi]; [apply Hn; exact Hi | apply (Hx a); [left; reflexivity | exact Hi]].
+      * apply IH. repeat split; [exact Hd | exact Hk | intros x Hi; apply Hx; right; exact Hi].
+Qed.
+
+Lemma NoDup_map_inj {A B} (f : A -> B) (l : list A) :
+  NoDup (map f l) -> forall a b, In a l -> In b l -> f a = f b -> a = b.
+Proof.
+  induction l as [|x l IH]; intros Hnd a b Ha Hb Hf; [destruct Ha|].
+  cbn [map] in Hnd. inversion Hnd as [|? ? Hn Hd]; subst.
+  destruct Ha as [<-|Ha], Hb as [<-|Hb].
+  - reflexivity.
+  - exfalso. apply Hn. rewrite Hf. apply in_map. exact Hb.
+  - exfalso. apply Hn. rewrite <- Hf. apply in_map. exact Ha.
+  - apply IH; assumption.
+Qed.
+
+Lemma NoDup_map_filter {A B} (f : A -> B) (p : A -> bool) (l : list A) : NoDup (map f l) -> NoDup (map f (filter p l)).
+Proof.
+  induction l as [|x l IH]; intros H; cbn [filter map]; [constructor|].
+  cbn [map] in H. inversion H as [|? ? Hn Hd]; subst.
+  destruct (p x); [|apply IH; exact Hd].
+  cbn [map]. constructor; [|apply IH; exact Hd].
+  intro Hi. apply Hn. apply in_map_iff in Hi. destruct Hi as [y [Hy Hin]]. apply filter_In in Hin. destruct Hin as [Hin _].
+  rewrite <- Hy. apply in_map. exact Hin.
+Qed.
+
+Lemma distinct_iff l : distinct l = true <-> NoDup l.
+Proof.
+  induction l as [|x l IH]; cbn [distinct].
+  - split; [intros _; constructor | reflexivity].
+  - split.
+    + intros H. apply andb_prop in H. destruct H as [Hm Hd]. constructor; [|apply IH; exact Hd].
+      apply mem_false_iff. destruct (mem x l); [discriminate | reflexivity].
+    + intros H. inversion H as [|? ? Hn Hd]; subst. apply mem_false_iff in Hn. rewrite Hn. cbn [negb andb]. apply IH. exact Hd.
+Qed.
+
+Lemma root_tags_app a b : root_tags (a ++ b) = root_tags a ++ root_tags b.
+Proof. unfold root_tags. apply flat_map_app. Qed.
+
+Lemma root_tags_cons n cs r : root_tags ((n, cs) :: r) = map c_tag cs ++ root_tags r.
+Proof. reflexivity. Qed.
+
+Lemma lookup_split : forall t r cs, lookup t r = Some cs ->
+  exists pre n post, r = pre ++ (n, cs) :: post /\ forall cs', set_table t cs' r = pre ++ (n, cs') :: post.
+Proof.
+  intros t. induction r as [|[n c0] r IH]; intros cs H; cbn [lookup] in H; [discriminate|].
+  destruct (beq_bytes n t) eqn:E.
+  - injection H as <-. exists [], n, r. split; [reflexivity|]. intros cs'. cbn [set_table]. rewrite E. reflexivity.
+  - destruct (IH cs H) as [pre [n' [post [Hr Hs]]]]. exists ((n, c0) :: pre), n', post. split.
+    + cbn [app]. rewrite <- Hr. reflexivity.
+    + intros cs'. cbn [set_table]. rewrite E. cbn [app]. rewrite Hs. reflexivity.
+Qed.
+
+Lemma lookup_none_set : forall t cs' r, lookup t r = None -> set_table t cs' r = r ++ [(t, cs')].
+Proof.
+  intros t cs'. induction r as [|[n c0] r IH]; intros H; cbn [lookup set_table] in *; [reflexivity|].
+  destruct (beq_bytes n t); [discriminate|]. cbn [app]. rewrite IH; [reflexivity | exact H].
+Qed.
+
+(* the tags of a root, with the table t pulled to the front *)
+Lemma tags_perm : forall t r cs, lookup t r = Some cs ->
+  exists R, (forall cs' O, Permutation (root_tags (set_table t cs' r) ++ O) (map c_tag cs' ++ R ++ O))
+            /\ (forall O, Permutation (root_tags r ++ O) (map c_tag cs ++ R ++ O)).
+Proof.
+  intros t r cs H. destruct (lookup_split t r cs H) as [pre [n [post [Hr Hs]]]].
+  exists (root_tags pre ++ root_tags post).
+  assert (Hp : forall c O, Permutation (root_tags (pre ++ (n, c) :: post) ++ O) (map c_tag c ++ (root_tags pre ++ root_tags post) ++ O)).
+  { intros c O. rewrite root_tags_app, root_tags_cons, <- !app_assoc. apply Permutation_app_swap_app. }
+  split.
+  - intros cs' O. rewrite Hs. apply Hp.
+  - intros O. rewrite Hr at 1. apply Hp.
+Qed.
+
+Lemma lookup_in_tags t r cs c : lookup t r = Some cs -> In c cs -> In (c_tag c) (root_tags r).
+Proof.
+  intros H Hc. destruct (lookup_split t r cs H) as [pre [n [post [Hr _]]]]. rewrite Hr, root_tags_app, root_tags_cons.
+  apply in_or_app. right. apply in_or_app. left. apply in_map. exact Hc.
+Qed.
+
+Lemma del_table_incl t r x : In x (root_tags (del_table t r)) -> In x (root_tags r).
+Proof.
+  induction r as [|[n c0] r IH]; cbn [del_table filter fst]; intros H; [exact H|].
+  rewrite root_tags_cons. destruct (negb (beq_bytes n t)).
+  - rewrite root_tags_cons in H. apply in_app_or in H. apply in_or_app. destruct H as [H|H]; [left; exact H | right; apply IH; exact H].
+  - apply in_or_app. right. apply IH. exact H.
+Qed.
+
+Lemma del_table_nodup t r O : NoDup (root_tags r ++ O) -> NoDup (root_tags (del_table t r) ++ O).
+Proof.
+  induction r as [|[n c0] r IH]; cbn [del_table filter fst]; intros H; [exact H|].
+  rewrite root_tags_cons, <- app_assoc in H. apply nodup_app_iff in H. destruct H as [H1 [H2 H3]].
+  destruct (negb (beq_bytes n t)).
+  - rewrite root_tags_cons, <- app_assoc. apply nodup_app_iff. repeat split; [exact H1 | apply IH; exact H2 |].
+    intros x Hx Hin. apply (H3 x Hx). apply in_app_or in Hin. apply in_or_app.
+    destruct Hin as [Hin|Hin]; [left; apply (del_table_incl t); exact Hin | right; exact Hin].
+  - apply IH. exact H2.
+Qed.
+
+Lemma insert_at_perm {A} (x : A) : forall i l, Permutation (insert_at i x l) (x :: l).
+Proof.
+  induction i as [|i IH]; intros l; cbn [insert_at]; [reflexivity|].
+  destruct l as [|h t]; [reflexivity|].
+  eapply perm_trans; [apply perm_skip; apply IH | apply perm_swap].
+Qed.
+
+Lemma eq_fold_iff a b : eq_fold a b = true <-> map lower a = map lower b.
+Proof. unfold eq_fold. apply beq_bytes_spec. Qed.
+
+Lemma eq_fold_trans_l n n' x : eq_fold n x = true -> eq_fold n' x = true -> eq_fold n n' = true.
+Proof. rewrite !eq_fold_iff. congruence. Qed.
+
+Lemma mk_cols_tags : forall news tags, List.length tags = List.length news -> map c_tag (mk_cols news tags) = tags.
+Proof.
+  unfold mk_cols. induction news as [|nk news IH]; intros [|t tags] H; cbn [combine map List.length] in *; try reflexivity; try discriminate.
+  cbn [c_tag snd]. f_equal. apply IH. injection H as H. exact H.
+Qed.
+
+Lemma shared_incl hc news c : In c (shared_cols hc news) -> In c hc.
+Proof.
+  unfold shared_cols. intros H. apply in_flat_map in H. destruct H as [nk [_ H]].
+  destruct (find _ hc) as [c0|] eqn:Hf; [|destruct H].
+  destruct (c_kind c0 =? snd nk); [|destruct H]. destruct H as [<-|[]]. apply find_some in Hf. apply Hf.
+Qed.
+
+Section RunDistinct.
+  Variable rand_seq : bytes -> bytes -> list N -> N -> N -> nat -> N.
+
+  Lemma reuse_some ecols n k x : reuse ecols n k = Some x -> exists c, In c ecols /\ c_tag c = x /\ eq_fold n (c_name c) = true.
+  Proof.
+    unfold reuse. destruct (find _ ecols) as [c|] eqn:Hf; cbn [option_map]; intros H; [|discriminate].
+    injection H as <-. apply find_some in Hf. destruct Hf as [Hin Hc]. apply andb_prop in Hc. exists c. repeat split; [exact Hin | apply Hc].
+  Qed.
+
+  Lemma gen_loop_len : forall fuel ecols t news ekinds etags tags,
+    gen_loop rand_seq fuel ecols t news ekinds etags = Some tags -> List.length tags = List.length news.
+  Proof.
+    intros fuel ecols t news. induction news as [|[n k] rest IH]; intros ekinds etags tags H; cbn [gen_loop] in H.
+    - injection H as <-. reflexivity.
+    - destruct (reuse ecols n k) as [r|].
+      + destruct (gen_loop rand_seq fuel ecols t rest ekinds etags) as [tl|] eqn:Hg; [|discriminate].
+        cbn [option_map] in H. injection H as <-. cbn [List.length]. f_equal. eapply IH. exact Hg.
+      + destruct (auto_tag rand_seq fuel etags t ekinds n k) as [x|]; [|discriminate].
+        destruct (gen_loop rand_seq fuel ecols t rest (ekinds ++ [k]) (x :: etags)) as [tl|] eqn:Hg; [|discriminate].
+        cbn [option_map] in H. injection H as <-. cbn [List.length]. f_equal. eapply IH. exact Hg.
+  Qed.
+
+  (* the tags one statement assigns: pairwise distinct; each is either outside the existing tags or the tag re-used from a
+     matching existing column *)
+  Lemma gen_loop_distinct : forall fuel ecols t news ekinds etags tags,
+    (forall a b, In a ecols -> In b ecols -> c_tag a = c_tag b -> a = b) ->
+    (forall c, In c ecols -> In (c_tag c) etags) ->
+    names_distinct (map fst news) = true ->
+    gen_loop rand_seq fuel ecols t news ekinds etags = Some tags ->
+    NoDup tags /\ forall y, In y tags -> ~ In y etags \/ (exists n k, In (n, k) news /\ reuse ecols n k = Some y).
+  Proof.
+    intros fuel ecols t news. induction news as [|[n k] rest IH]; intros ekinds etags tags Hinj Hsub Hnd H; cbn [gen_loop] in H.
+    - injection H as <-. split; [constructor | intros y []].
+    - cbn [map fst names_distinct] in Hnd. apply andb_prop in Hnd. destruct Hnd as [Hn Hnd].
+      destruct (reuse ecols n k) as [r|] eqn:Hr.
+      + destruct (gen_loop rand_seq fuel ecols t rest ekinds etags) as [tl|] eqn:Hg; [|discriminate].
+        cbn [option_map] in H. injection H as <-.
+        destruct (IH _ _ _ Hinj Hsub Hnd Hg) as [Hd Hy]. split.
+        * constructor; [|exact Hd]. intro Hin.
+          destruct (reuse_some _ _ _ _ Hr) as [c [Hc [Htag Hfold]]].
+          destruct (Hy r Hin) as [Hfresh | [n' [k' [Hin' Hr']]]].
+          -- apply Hfresh. rewrite <- Htag. apply Hsub. exact Hc.
+          -- destruct (reuse_some _ _ _ _ Hr') as [c' [Hc' [Htag' Hfold']]].
+             assert (c = c') by (apply Hinj; [exact Hc | exact Hc' | congruence]). subst c'.
+             assert (Hnn : eq_fold n n' = true) by (eapply eq_fold_trans_l; eassumption).
+             assert (Hex : existsb (eq_fold n) (map fst rest) = true).
+             { apply existsb_exists. exists n'. split; [|exact Hnn]. apply in_map_iff. exists (n', k'). split; [reflexivity | exact Hin']. }
+             rewrite Hex in Hn. discriminate.
+        * intros y [<-|Hin].
+          -- right. exists n, k. split; [left; reflexivity | exact Hr].
+          -- destruct (Hy y Hin) as [Hf | [n' [k' [Hin' Hr']]]]; [left; exact Hf | right; exists n', k'; split; [right; exact Hin' | exact Hr']].
+      + destruct (auto_tag rand_seq fuel etags t ekinds n k) as [x|] eqn:Hx; [|discriminate].
+        destruct (gen_loop rand_seq fuel ecols t rest (ekinds ++ [k]) (x :: etags)) as [tl|] eqn:Hg; [|discriminate].
+        cbn [option_map] in H. injection H as <-.
+        assert (Hsub' : forall c, In c ecols -> In (c_tag c) (x :: etags)) by (intros c Hc; right; apply Hsub; exact Hc).
+        destruct (IH _ _ _ Hinj Hsub' Hnd Hg) as [Hd Hy].
+        pose proof (tag_fresh rand_seq _ _ _ _ _ _ _ Hx) as Hfr. split.
+        * constructor; [|exact Hd]. intro Hin.
+          destruct (Hy x Hin) as [Hf | [n' [k' [_ Hr']]]].
+          -- apply Hf. left. reflexivity.
+          -- destruct (reuse_some _ _ _ _ Hr') as [c' [Hc' [Htag' _]]]. apply Hfr. rewrite <- Htag'. apply Hsub. exact Hc'.
+        * intros y [<-|Hin]; [left; exact Hfr|].
+          destruct (Hy y Hin) as [Hf | [n' [k' [Hin' Hr']]]].
+          -- left. intro Hi. apply Hf. right. exact Hi.
+          -- right. exists n', k'. split; [right; exact Hin' | exact Hr'].
+  Qed.
+
+  Definition Inv (s : st) : Prop := NoDup (root_tags (work s) ++ other s) /\ NoDup (root_tags (head s) ++ other s).
+
+  (* replacing the columns of an existing table *)
+  Lemma set_existing_nodup t w cs cs' O :
+    lookup t w = Some cs ->
+    (forall RO, Permutation (root_tags w ++ O) (map c_tag cs ++ RO) -> NoDup (map c_tag cs' ++ RO)) ->
+    NoDup (root_tags (set_table t cs' w) ++ O).
+  Proof.
+    intros Hl H. destruct (tags_perm t w cs Hl) as [R [Hset Hcur]].
+    eapply Permutation_NoDup; [apply Permutation_sym; apply Hset|]. apply H. apply Hcur.
+  Qed.
+
+  Lemma step_other fuel s d s' : step rand_seq fuel s d = Some s' -> other s' = other s.
+  Proof.
+    destruct d as [t news | t c k pos | t c | t | t a b | t c k | ]; unfold step; intros H.
+    - destruct (negb (names_distinct (map fst news))); [injection H as <-; reflexivity|].
+      destruct (lookup t (work s)); [injection H as <-; reflexivity|].
+      destruct (gen_tags rand_seq fuel _ _ t news); [|discriminate]. injection H as <-. reflexivity.
+    - destruct (lookup t (work s)) as [cs|]; [|injection H as <-; reflexivity].
+      destruct (has_col cs c); [injection H as <-; reflexivity|].
+      destruct (gen_tags rand_seq fuel cs _ t [(c, k)]) as [[|tag [|? ?]]|]; try discriminate. injection H as <-. reflexivity.
+    - destruct (lookup t (work s)); injection H as <-; reflexivity.
+    - injection H as <-. reflexivity.
+    - destruct (lookup t (work s)) as [cs|]; [|injection H as <-; reflexivity].
+      destruct (has_col cs b); injection H as <-; reflexivity.
+    - destruct (lookup t (work s)); injection H as <-; reflexivity.
+    - injection H as <-. reflexivity.
+  Qed.
+
+  Lemma step_inv fuel s d s' : Inv s -> create_safe s d = true -> step rand_seq fuel s d = Some s' -> Inv s'.
+  Proof.
+    intros [Hw Hh] Hsafe H.
+    destruct d as [t news | t c k pos | t c | t | t a b | t c k | ]; unfold step in H.
+    - (* CREATE TABLE *)
+      destruct (names_distinct (map fst news)) eqn:Hnd; cbn [negb] in H; [|injection H as <-; split; assumption].
+      unfold create_safe in Hsafe. rewrite Hnd in Hsafe. cbn [negb] in Hsafe.
+      destruct (lookup t (work s)) as [wc|] eqn:Hlw; [injection H as <-; split; assumption|].
+      set (ecols := match lookup t (head s) with Some hc => shared_cols hc news | None => [] end) in *.
+      destruct (gen_tags rand_seq fuel ecols (root_tags (head s) ++ root_tags (work s) ++ other s) t news) as [tags|] eqn:Hg; [|discriminate].
+      injection H as <-. split; cbn [work head other]; [|exact Hh].
+      unfold gen_tags in Hg.
+      assert (Hinj : forall a b, In a ecols -> In b ecols -> c_tag a = c_tag b -> a = b).
+      { subst ecols. destruct (lookup t (head s)) as [hc|] eqn:Hlh; [|intros a b []].
+        intros a b Ha Hb. apply shared_incl in Ha. apply shared_incl in Hb.
+        apply (NoDup_map_inj c_tag hc); [|exact Ha | exact Hb].
+        destruct (tags_perm t (head s) hc Hlh) as [R [_ Hcur]].
+        pose proof (Permutation_NoDup (Hcur (other s)) Hh) as Hn. apply nodup_app_iff in Hn. apply Hn. }
+      assert (Hsub : forall c, In c ecols -> In (c_tag c) (root_tags (head s) ++ root_tags (work s) ++ other s)).
+      { subst ecols. destruct (lookup t (head s)) as [hc|] eqn:Hlh; [|intros c []].
+        intros c Hc. apply shared_incl in Hc. apply in_or_app. left. eapply lookup_in_tags; eassumption. }
+      pose proof (gen_loop_len _ _ _ _ _ _ _ Hg) as Hlen.
+      destruct (gen_loop_distinct _ _ _ _ _ _ _ Hinj Hsub Hnd Hg) as [Hd Hy].
+      rewrite (lookup_none_set t _ _ Hlw), root_tags_app, root_tags_cons, (mk_cols_tags _ _ Hlen).
+      cbn [root_tags flat_map]. rewrite app_nil_r, <- app_assoc.
+      eapply Permutation_NoDup; [apply Permutation_app_swap_app|].
+      apply nodup_app_iff. repeat split; [exact Hd | exact Hw |].
+      intros y Hyin Hin. destruct (Hy y Hyin) as [Hf | [n [k [_ Hr]]]].
+      + apply Hf. apply in_or_app. right. exact Hin.
+      + destruct (reuse_some _ _ _ _ Hr) as [c [Hc [Htag _]]]. subst ecols.
+        destruct (lookup t (head s)) as [hc|]; [|destruct Hc].
+        rewrite forallb_forall in Hsafe. specialize (Hsafe c Hc). rewrite Htag in Hsafe.
+        apply mem_true_iff in Hin. rewrite Hin in Hsafe. discriminate.
+    - (* ADD COLUMN *)
+      destruct (lookup t (work s)) as [cs|] eqn:Hl; [|injection H as <-; split; assumption].
+      destruct (has_col cs c) eqn:Hc; [injection H as <-; split; assumption|].
+      pose proof (addcol_tag_fresh rand_seq fuel s t c k pos cs) as Ha.
+      assert (Hstep : step rand_seq fuel s (AddCol t c k pos) = Some s').
+      { unfold step. rewrite Hl, Hc. exact H. }
+      destruct (Ha s' Hl Hc Hstep) as [tag [Hwork Hfresh]].
+      pose proof (step_other _ _ _ _ Hstep) as Ho.
+      assert (Hhead : head s' = head s).
+      { clear -H. destruct (gen_tags rand_seq fuel cs _ t [(c, k)]) as [[|tg [|? ?]]|]; try discriminate. injection H as <-. reflexivity. }
+      split; rewrite Ho; [|rewrite Hhead; exact Hh].
+      rewrite Hwork. eapply set_existing_nodup; [exact Hl|]. intros RO HP.
+      assert (Hperm : Permutation (map c_tag (insert_at pos {| c_name := c; c_kind := k; c_tag := tag |} cs) ++ RO) (tag :: map c_tag cs ++ RO)).
+      { change (tag :: map c_tag cs ++ RO) with ((tag :: map c_tag cs) ++ RO). apply Permutation_app_tail.
+        change (tag :: map c_tag cs) with (map c_tag ({| c_name := c; c_kind := k; c_tag := tag |} :: cs)).
+        apply Permutation_map. apply insert_at_perm. }
+      eapply Permutation_NoDup; [apply Permutation_sym; exact Hperm|].
+      constructor.
+      + intro Hin. apply Hfresh. eapply Permutation_in; [apply Permutation_sym; exact HP | exact Hin].
+      + eapply Permutation_NoDup; [exact HP | exact Hw].
+    - (* DROP COLUMN *)
+      destruct (lookup t (work s)) as [cs|] eqn:Hl; injection H as <-; [|split; assumption].
+      split; cbn [work head other]; [|exact Hh].
+      eapply set_existing_nodup; [exact Hl|]. intros RO HP.
+      pose proof (Permutation_NoDup HP Hw) as Hn. apply nodup_app_iff in Hn. destruct Hn as [H1 [H2 H3]].
+      apply nodup_app_iff. repeat split; [apply NoDup_map_filter; exact H1 | exact H2 |].
+      intros x Hx. apply H3. apply in_map_iff in Hx. destruct Hx as [y [Hy Hin]]. apply filter_In in Hin.
+      rewrite <- Hy. apply in_map. apply Hin.
+    - (* DROP TABLE *)
+      injection H as <-. split; cbn [work head other]; [|exact Hh]. apply del_table_nodup. exact Hw.
+    - (* RENAME COLUMN *)
+      destruct (lookup t (work s)) as [cs|] eqn:Hl; [|injection H as <-; split; assumption].
+      destruct (has_col cs b); injection H as <-; [split; assumption|].
+      split; cbn [work head other]; [|exact Hh].
+      eapply set_existing_nodup; [exact Hl|]. intros RO HP.
+      rewrite map_map.
+      rewrite (map_ext _ c_tag) by (intros x; destruct (eq_fold a (c_name x)); reflexivity).
+      eapply Permutation_NoDup; [exact HP | exact Hw].
+    - (* MODIFY COLUMN *)
+      destruct (lookup t (work s)) as [cs|] eqn:Hl; injection H as <-; [|split; assumption].
+      split; cbn [work head other]; [|exact Hh].
+      eapply set_existing_nodup; [exact Hl|]. intros RO HP.
+      rewrite map_map.
+      rewrite (map_ext _ c_tag) by (intros x; destruct (eq_fold c (c_name x)); reflexivity).
+      eapply Permutation_NoDup; [exact HP | exact Hw].
+    - (* commit *)
+      injection H as <-. split; cbn [work head other]; exact Hw.
+  Qed.
+
+  (* Full statement (false, see tags_distinct_refuted): for EVERY DDL sequence the tags of every reached root are pairwise distinct.
+     Proved: for every DDL sequence (CREATE TABLE, ADD / DROP / RENAME / MODIFY COLUMN, DROP TABLE, commit), every random source
+     and every starting state with distinct tags, if the decidable condition [safe_run] holds — every CREATE TABLE that re-creates
+     a table HEAD still has finds none of the tags it re-uses in the working root — then the tags of the working root and of HEAD
+     are pairwise distinct in every state the run reaches (up to the point where fuel runs out, if it does).
+     Missing for the full statement: exactly the excluded runs, on which it is false in the model and in the implementation. *)
+  Theorem tags_distinct_run_partial : forall fuel ds s,
+    NoDup (root_tags (work s) ++ other s) -> NoDup (root_tags (head s) ++ other s) ->
+    safe_run rand_seq fuel s ds = true ->
+    forall s', In s' (reached rand_seq fuel s ds) ->
+      NoDup (root_tags (work s') ++ other s') /\ NoDup (root_tags (head s') ++ other s').
+  Proof.
+    intros fuel ds. induction ds as [|d ds IH]; intros s Hw Hh Hsafe s' Hin; cbn [reached] in Hin.
+    - destruct Hin as [<-|[]]. split; assumption.
+    - destruct Hin as [<-|Hin]; [split; assumption|].
+      cbn [safe_run] in Hsafe. apply andb_prop in Hsafe. destruct Hsafe as [Hc Hrest].
+      destruct (step rand_seq fuel s d) as [s1|] eqn:Hs; [|destruct Hin].
+      destruct (step_inv fuel s d s1 (conj Hw Hh) Hc Hs) as [Hw1 Hh1].
+      apply (IH s1 Hw1 Hh1 Hrest s' Hin).
+  Qed.
+
+  (* a CREATE TABLE of a table HEAD does not have is always safe *)
+  Lemma create_safe_fresh s t news : lookup t (head s) = None -> create_safe s (Create t news) = true.
+  Proof. intros H. unfold create_safe. rewrite H. destruct (negb _); [reflexivity|]. destruct (lookup t (work s)); reflexivity. Qed.
+
+  (* ---- the syntactic sufficient condition ---- *)
+  Definition has (t : bytes) (r : root) : bool := match lookup t r with Some _ => true | None => false end.
+
+  Lemma beq_bytes_sym a b : beq_bytes a b = beq_bytes b a.
+  Proof.
+    destruct (beq_bytes a b) eqn:E1, (beq_bytes b a) eqn:E2; try reflexivity.
+    - apply beq_bytes_spec in E1. subst. rewrite beq_bytes_refl in E2. discriminate.
+    - apply beq_bytes_spec in E2. subst. rewrite beq_bytes_refl in E1. discriminate.
+  Qed.
+
+  Lemma has_set_table t cs t' : forall r, has t' (set_table t cs r) = beq_bytes t t' || has t' r.
+  Proof.
+    unfold has. induction r as [|[n c0] r IH]; cbn [set_table lookup].
+    - destruct (beq_bytes t t'); reflexivity.
+    - destruct (beq_bytes n t) eqn:E.
+      + apply beq_bytes_spec in E. subst n. cbn [lookup]. destruct (beq_bytes t t'); reflexivity.
+      + cbn [lookup]. destruct (beq_bytes n t'); [rewrite orb_true_r; reflexivity | exact IH].
+  Qed.
+
+  Lemma has_set_existing t cs t' r : has t r = true -> has t' (set_table t cs r) = has t' r.
+  Proof.
+    intros H. rewrite has_set_table. destruct (beq_bytes t t') eqn:E; [|reflexivity].
+    apply beq_bytes_spec in E. subst. rewrite H. reflexivity.
+  Qed.
+
+  Lemma has_del_table t t' : forall r, has t' (del_table t r) = has t' r && negb (beq_bytes t' t).
+  Proof.
+    unfold has. induction r as [|[n c0] r IH]; cbn [del_table filter fst lookup]; [reflexivity|].
+    destruct (beq_bytes n t) eqn:E; cbn [negb].
+    - apply beq_bytes_spec in E. subst n. fold (del_table t r). rewrite IH.
+      rewrite (beq_bytes_sym t t'). destruct (beq_bytes t' t); [rewrite andb_false_r; reflexivity | reflexivity].
+    - cbn [lookup]. fold (del_table t r). destruct (beq_bytes n t') eqn:E'.
+      + apply beq_bytes_spec in E'. subst n. rewrite E. reflexivity.
+      + exact IH.
+  Qed.
+
+  Lemma mem_name_filter t t' : forall l, mem_name t' (filter (fun n => negb (beq_bytes n t)) l) = mem_name t' l && negb (beq_bytes t' t).
+  Proof.
+    unfold mem_name. induction l as [|n l IH]; cbn [filter existsb]; [reflexivity|].
+    destruct (beq_bytes n t) eqn:E; cbn [negb existsb].
+    - rewrite IH. destruct (beq_bytes t' n) eqn:E'; [|reflexivity].
+      apply beq_bytes_spec in E'. subst n. rewrite E. cbn [negb orb]. rewrite andb_false_r. reflexivity.
+    - rewrite IH. destruct (beq_bytes t' n) eqn:E'; [|reflexivity].
+      apply beq_bytes_spec in E'. subst n. rewrite E. reflexivity.
+  Qed.
+
+  (* "no CREATE TABLE of a table HEAD has while the working root does not": a condition on the statement list and the table names
+     alone (no tags, no random source) that puts the run in the safe class *)
+  Theorem no_recreate_safe : forall fuel ds s hn wn,
+    (forall t, mem_name t hn = has t (head s)) -> (forall t, mem_name t wn = has t (work s)) ->
+    no_recreate hn wn ds = true -> safe_run rand_seq fuel s ds = true.
+  Proof.
+    intros fuel ds. induction ds as [|d ds IH]; intros s hn wn Hh Hw Hn; [reflexivity|].
+    cbn [safe_run].
+    destruct d as [t news | t c k pos | t c | t | t a b | t c k | ]; cbn [no_recreate] in Hn.
+    - (* CREATE *)
+      unfold create_safe, step.
+      destruct (negb (names_distinct (map fst news))) eqn:Hnd; cbn [orb] in Hn.
+      { cbn [andb]. apply (IH s hn wn Hh Hw Hn). }
+      pose proof (Hw t) as Hwt. unfold has in Hwt.
+      destruct (lookup t (work s)) as [wc|] eqn:Hlw.
+      { rewrite Hwt in Hn. cbn [andb]. apply (IH s hn wn Hh Hw Hn). }
+      rewrite Hwt in Hn. apply andb_prop in Hn. destruct Hn as [Hnh Hn].
+      pose proof (Hh t) as Hht. unfold has in Hht.
+      destruct (lookup t (head s)) as [hc|] eqn:Hlh; [rewrite Hht in Hnh; discriminate|].
+      cbn [andb].
+      destruct (gen_tags rand_seq fuel [] _ t news) as [tags|]; [|reflexivity].
+      apply (IH _ hn (t :: wn)); cbn [head work]; [exact Hh | | exact Hn].
+      intros t'. rewrite has_set_table. unfold mem_name. cbn [existsb]. fold (mem_name t' wn). rewrite (beq_bytes_sym t' t), Hw. reflexivity.
+    - (* ADD COLUMN *)
+      cbn [create_safe andb]. unfold step.
+      destruct (lookup t (work s)) as [cs|] eqn:Hl; [|apply (IH s hn wn Hh Hw Hn)].
+      destruct (has_col cs c); [apply (IH s hn wn Hh Hw Hn)|].
+      destruct (gen_tags rand_seq fuel cs _ t [(c, k)]) as [[|tag [|? ?]]|]; try reflexivity.
+      apply (IH _ hn wn); cbn [head work]; [exact Hh | | exact Hn].
+      intros t'. rewrite has_set_existing; [apply Hw | unfold has; rewrite Hl; reflexivity].
+    - cbn [create_safe andb]. unfold step.
+      destruct (lookup t (work s)) as [cs|] eqn:Hl; [|apply (IH s hn wn Hh Hw Hn)].
+      apply (IH _ hn wn); cbn [head work]; [exact Hh | | exact Hn].
+      intros t'. rewrite has_set_existing; [apply Hw | unfold has; rewrite Hl; reflexivity].
+    - (* DROP TABLE *)
+      cbn [create_safe andb]. unfold step.
+      apply (IH _ hn (filter (fun n => negb (beq_bytes n t)) wn)); cbn [head work]; [exact Hh | | exact Hn].
+      intros t'. rewrite has_del_table, mem_name_filter, Hw. reflexivity.
+    - cbn [create_safe andb]. unfold step.
+      destruct (lookup t (work s)) as [cs|] eqn:Hl; [|apply (IH s hn wn Hh Hw Hn)].
+      destruct (has_col cs b); [apply (IH s hn wn Hh Hw Hn)|].
+      apply (IH _ hn wn); cbn [head work]; [exact Hh | | exact Hn].
+      intros t'. rewrite has_set_existing; [apply Hw | unfold has; rewrite Hl; reflexivity].
+    - cbn [create_safe andb]. unfold step.
+      destruct (lookup t (work s)) as [cs|] eqn:Hl; [|apply (IH s hn wn Hh Hw Hn)].
+      apply (IH _ hn wn); cbn [head work]; [exact Hh | | exact Hn].
+      intros t'. rewrite has_set_existing; [apply Hw | unfold has; rewrite Hl; reflexivity].
+    - (* commit *)
+      cbn [create_safe andb]. unfold step.
+      apply (IH _ wn wn); cbn [head work]; [exact Hw | exact Hw | exact Hn].
+  Qed.
+
+  Lemma mem_name_names t : forall r, mem_name t (map fst r) = has t r.
+  Proof.
+    unfold mem_name, has. induction r as [|[n c0] r IH]; cbn [map fst existsb lookup]; [reflexivity|].
+    rewrite (beq_bytes_sym t n). destruct (beq_bytes n t); [reflexivity | exact IH].
+  Qed.
+
+  (* the run-level theorem under the purely syntactic condition *)
+  Theorem tags_distinct_run_no_recreate : forall fuel ds s,
+    NoDup (root_tags (work s) ++ other s) -> NoDup (root_tags (head s) ++ other s) ->
+    no_recreate (map fst (head s)) (map fst (work s)) ds = true ->
+    forall s', In s' (reached rand_seq fuel s ds) ->
+      NoDup (root_tags (work s') ++ other s') /\ NoDup (root_tags (head s') ++ other s').
+  Proof.
+    intros fuel ds s Hw Hh Hn. apply tags_distinct_run_partial; [exact Hw | exact Hh |].
+    apply (no_recreate_safe fuel ds s (map fst (head s)) (map fst (work s))); [intros t; apply mem_name_names | intros t; apply mem_name_names | exact Hn].
+  Qed.
+End RunDistinct.
+
+(* ------------------------------------------------------------------ *)
+(* the oracle holds on the model's own observation                     *)
+(* ------------------------------------------------------------------ *)
+Lemma last_indep {A} (b : A) l d d' : last (b :: l) d = last (b :: l) d'.
+Proof. revert b. induction l as [|c l IH]; intros b; [reflexivity|]. cbn [last] in *. apply IH. Qed.
+
+Lemma last_cons_default {A} (a : A) l d : last (a :: l) d = last l a.
+Proof. destruct l as [|b l]; [reflexivity|]. cbn [last]. apply last_indep. Qed.
+
+Lemma last_app_gen {A} (l1 l2 : list A) d : last (l1 ++ l2) d = last l2 (last l1 d).
+Proof.
+  revert d. induction l1 as [|a l1 IH]; intros d; [reflexivity|].
+  cbn [app]. rewrite last_cons_default, IH. rewrite (last_cons_default a l1 d). reflexivity.
+Qed.
+
+Lemma run_states_last cands : forall ds s l sf, run_states cands s ds = (l, sf) -> last l (work s) = work sf.
+Proof.
+  induction ds as [|[d ok] ds IH]; intros s l sf H; cbn [run_states] in H.
+  - injection H as <- <-. reflexivity.
+  - match type of H with (let '(_, _) := run_states cands ?x ds in _) = _ => set (s1 := x) in * end.
+    destruct (run_states cands s1 ds) as [l' sf'] eqn:E. injection H as <- <-.
+    rewrite last_cons_default. apply (IH s1 l' sf' E).
+Qed.
+
+Lemma col_eqb_refl c : col_eqb c c = true.
+Proof. unfold col_eqb. rewrite beq_bytes_refl, !N.eqb_refl. reflexivity. Qed.
+
+Lemma root_same_refl r : root_same r r = true.
+Proof.
+  unfold root_same. apply forallb_forall. intros t _. destruct (lookup (fst t) r) as [cs|]; [|reflexivity].
+  cbn [opt_cols_eqb]. apply (list_eqb_refl col_eqb col_eqb_refl).
+Qed.
+
+Lemma model_final_root i : final_root (model_obs i) = o_b2 (model_obs i).
+Proof.
+  unfold model_obs, final_root.
+  destruct (run_states (i_cands i) {| head := []; work := []; other := [] |} (i_main i)) as [l1 s1] eqn:E1.
+  destruct (run_states (i_cands i) {| head := work s1; work := work s1; other := [] |} (i_branch i)) as [l2 s2] eqn:E2.
+  cbn [o_states o_b2]. rewrite last_app_gen.
+  pose proof (run_states_last _ _ _ _ _ E1) as H1. cbn [work] in H1. rewrite H1.
+  apply (run_states_last _ _ _ _ _ E2).
+Qed.
+
+(* clause (b): the model gives every branch / repository the same root — outright *)
+Theorem oracle_b_on_model : forall i, oracle_b (model_obs i) = true.
+Proof.
+  intros i. unfold oracle_b. rewrite model_final_root.
+  unfold model_obs.
+  destruct (run_states (i_cands i) {| head := []; work := []; other := [] |} (i_main i)) as [l1 s1].
+  destruct (run_states (i_cands i) {| head := work s1; work := work s1; other := [] |} (i_branch i)) as [l2 s2].
+  cbn [o_b2 o_envb o_merged o_merge]. rewrite !root_same_refl. reflexivity.
+Qed.
+
+Lemma forallb_map_true {A} (l : list A) : forallb (fun b : bool => b) (map (fun _ => true) l) = true.
+Proof. induction l; [reflexivity | exact IHl]. Qed.
+
+(* clause (a): every well-formed stored schema and every foreign key collection comes back unchanged *)
+Theorem oracle_a_on_model : forall i,
+  Forall (wf_schema (fun x => x) (fun x => Some x)) (i_schemas i) -> oracle_a i (model_obs i) = true.
+Proof.
+  intros i Hwf. unfold oracle_a, model_obs.
+  destruct (run_states (i_cands i) {| head := []; work := []; other := [] |} (i_main i)) as [l1 s1].
+  destruct (run_states (i_cands i) {| head := work s1; work := work s1; other := [] |} (i_branch i)) as [l2 s2].
+  cbn [o_back o_flags o_fks_back o_fkflags].
+  rewrite !forallb_map_true, !map_length, !Nat.eqb_refl.
+  assert (Hs : list_eqb opt_schema_eqb (map roundtrip (i_schemas i)) (map Some (i_schemas i)) = true).
+  { induction Hwf as [|x l Hx Hl IH]; [reflexivity|]. cbn [map list_eqb]. unfold roundtrip at 1.
+    rewrite (schema_roundtrip _ _ x Hx). cbn [opt_schema_eqb]. rewrite sschema_eqb_refl. exact IH. }
+  assert (Hf : list_eqb opt_fks_eqb (map fk_roundtrip_m (i_fks i)) (map Some (i_fks i)) = true).
+  { induction (i_fks i) as [|x l IH]; [reflexivity|]. cbn [map list_eqb]. unfold fk_roundtrip_m at 1.
+    rewrite (fk_roundtrip (fun y => y) (fun y => Some y) x) by (intros k _; split; reflexivity).
+    cbn [opt_fks_eqb]. rewrite (list_eqb_refl sfk_eqb sfk_eqb_refl). exact IH. }
+  rewrite Hs, Hf. reflexivity.
+Qed.
+
+Lemma run_states_inv cands : forall ds s l sf,
+  Inv s -> other s = [] -> steps_safe cands s ds = true -> run_states cands s ds = (l, sf) ->
+  Forall (fun r => NoDup (root_tags r)) l /\ Inv sf /\ other sf = [].
+Proof.
+  induction ds as [|[d ok] ds IH]; intros s l sf Hi Ho Hs H; cbn [run_states steps_safe] in *.
+  - injection H as <- <-. repeat split; [constructor | apply Hi | apply Hi | exact Ho].
+  - destruct ok.
+    + apply andb_prop in Hs. destruct Hs as [Hc Hs].
+      destruct (step (rand_of cands) FUEL s d) as [s1|] eqn:E; [|discriminate].
+      destruct (run_states cands s1 ds) as [l' sf'] eqn:E2. injection H as <- <-.
+      pose proof (step_inv _ _ _ _ _ Hi Hc E) as Hi1.
+      pose proof (step_other _ _ _ _ _ E) as Ho1. rewrite Ho in Ho1.
+      destruct (IH s1 l' sf' Hi1 Ho1 Hs E2) as [Hf [Hif Hof]].
+      repeat split; try assumption; try apply Hif.
+      constructor; [|exact Hf]. destruct Hi1 as [Hw _]. rewrite Ho1, app_nil_r in Hw. exact Hw.
+    + destruct (run_states cands s ds) as [l' sf'] eqn:E2. injection H as <- <-.
+      destruct (IH s l' sf' Hi Ho Hs E2) as [Hf [Hif Hof]].
+      repeat split; try assumption; try apply Hif.
+      constructor; [|exact Hf]. destruct Hi as [Hw _]. rewrite Ho, app_nil_r in Hw. exact Hw.
+Qed.
+
+(* clause (c): on the inputs of the decidable class [input_safe] (every executed statement is create_safe and none runs out of
+   fuel) the model's roots have pairwise distinct tags.  Outside that class the clause is false for the model as it is for the
+   implementation (tags_distinct_refuted). *)
+Theorem oracle_c_on_model_partial : forall i, input_safe i = true -> oracle_c (model_obs i) = true.
+Proof.
+  intros i Hs. unfold input_safe in Hs. unfold oracle_c, model_obs.
+  destruct (run_states (i_cands i) {| head := []; work := []; other := [] |} (i_main i)) as [l1 s1] eqn:E1.
+  apply andb_prop in Hs. destruct Hs as [Hs1 Hs2].
+  destruct (run_states (i_cands i) {| head := work s1; work := work s1; other := [] |} (i_branch i)) as [l2 s2] eqn:E2.
+  cbn [o_states o_b2 o_envb o_merged].
+  assert (Hi0 : Inv {| head := []; work := []; other := [] |}) by (split; constructor).
+  destruct (run_states_inv _ _ _ _ _ Hi0 eq_refl Hs1 E1) as [Hf1 [[Hw1 _] Ho1]].
+  assert (Hi1 : Inv {| head := work s1; work := work s1; other := [] |}).
+  { rewrite Ho1 in Hw1. split; exact Hw1. }
+  destruct (run_states_inv _ _ _ _ _ Hi1 eq_refl Hs2 E2) as [Hf2 [[Hw2 _] Ho2]].
+  rewrite Ho2, app_nil_r in Hw2. apply distinct_iff in Hw2. rewrite !Hw2.
+  assert (Hall : forallb (fun r => distinct (root_tags r)) (l1 ++ l2) = true).
+  { apply forallb_forall. intros r Hr. apply distinct_iff. apply in_app_or in Hr.
+    destruct Hr as [Hr|Hr]; [apply (proj1 (Forall_forall _ _) Hf1 r Hr) | apply (proj1 (Forall_forall _ _) Hf2 r Hr)]. }
+  rewrite Hall. reflexivity.
+Qed.
+
+Theorem oracle_on_model_partial : forall i,
+  Forall (wf_schema (fun x => x) (fun x => Some x)) (i_schemas i) -> input_safe i = true ->
+  oracle i (model_obs i) = true.
+Proof.
+  intros i Hwf Hs. unfold oracle.
+  rewrite (oracle_a_on_model i Hwf), (oracle_b_on_model i), (oracle_c_on_model_partial i Hs). reflexivity.
+Qed.
